@@ -643,15 +643,14 @@ impl Hypercore {
     /// been stored.
     #[instrument(err, skip_all)]
     pub async fn make_read_only(&mut self) -> Result<bool, HypercoreError> {
-        if self.key_pair.secret.is_some() {
-            self.key_pair.secret = None;
-            self.header.key_pair.secret = None;
-            // Need to flush clearing traces to make sure both oplog slots are cleared
-            self.flush_bitfield_and_tree_and_oplog(true).await?;
-            Ok(true)
-        } else {
-            Ok(false)
-        }
+        let changed = self.key_pair.secret.is_some();
+        self.key_pair.secret = None;
+        self.header.key_pair.secret = None;
+        // Need to flush clearing traces to make sure both oplog slots are cleared. This is done
+        // also when this instance is already read-only: a crash during an earlier call can have
+        // left the secret key in the header slot that is not the current one.
+        self.flush_bitfield_and_tree_and_oplog(true).await?;
+        Ok(changed)
     }
 
     async fn byte_range(
